@@ -520,7 +520,7 @@ theorem step_conserved (cfg : Cfg) (w : World) (a : Action) (hc : Conserved w) :
   unfold step
   cases hcur : w.current with
   | none =>
-    cases a <;> simp only [] <;> first | exact hc | exact loopRunTask_conserved w hc | exact loopTimers_conserved w hc
+    cases a <;> simp only [] <;> (first | exact hc | exact loopRunTask_conserved w hc | exact loopTimers_conserved w hc | exact Conserved.congr rfl rfl (fun _ => rfl) hc)
   | some f =>
     cases a with
     | go g => exact schedule_conserved _ _ _ hc
@@ -552,6 +552,7 @@ theorem step_conserved (cfg : Cfg) (w : World) (a : Action) (hc : Conserved w) :
     | finish e => exact finishFiber_conserved _ _ _ hc
     | runTask => exact hc
     | timers => exact hc
+    | poll => exact hc
 
 /-- **conservation** for every action sequence -/
 theorem run_conserved (cfg : Cfg) (as : List Action) : ∀ w : World, Conserved w → Conserved (run cfg w as) := by
